@@ -1,7 +1,7 @@
 """Contract model of the `automap` extension: an insertion-ordered mapping from unique hashable keys
 to consecutive ints starting at 0.  ValueError on a duplicate key (automap README); AutoMap can grow
 with add/update.  Lookup is a linear scan with `==`, so symbolic labels stay symbolic."""
-from .cells import ModelGap
+from .cells import ModelGap, num_eq, is_symbolic
 
 
 def _check_hashable(k):
@@ -20,6 +20,9 @@ def _same(a, b):
     # dict semantics: identity or equality
     if a is b:
         return True
+    if isinstance(a, float) or isinstance(b, float):
+        if isinstance(a, (int, float)) and isinstance(b, (int, float)):
+            return num_eq(a, b)
     r = a == b
     if r is NotImplemented:
         return False
